@@ -209,8 +209,8 @@ func casesFor(r *ev.Run, n, m int, distinct bool) []wcase {
 			add(modes, "free", nil)
 		}
 		np := len(all)
-		if !r.Thorough() && np > 2 {
-			np = 2
+		if !r.Thorough() && np > 6 {
+			np = 4 // quick: every order for n <= 3, four seeded orders for n = 4
 		}
 		if np == len(all) {
 			for _, p := range all {
@@ -251,7 +251,7 @@ func casesFor(r *ev.Run, n, m int, distinct bool) []wcase {
 		withScheds(modes)
 	}
 	seen := map[string]bool{}
-	for i := 0; i < r.Pick(40, 2500); i++ {
+	for i := 0; i < r.Pick(150, 2500); i++ {
 		modes := make([]int, n)
 		special := false
 		for j := range modes {
